@@ -1840,6 +1840,16 @@ fn run_once(f: EstFn, inp: &Value, data: &Data, threads: usize, hook: bool, pool
         // and an unknown-code marker, which no action of the schedule model explains
         const MAX_HOOK_EVENTS: usize = 400_000;
         par = lines.iter().take(MAX_HOOK_EVENTS).map(|l| compact_hook(l)).collect();
+        // thread ordinals are process-wide (every pool of every earlier case has consumed some): they are
+        // re-numbered densely in order of first appearance within this run (an injective re-encoding)
+        let mut dense: BTreeMap<i64, i64> = BTreeMap::new();
+        for h in par.iter_mut() {
+            if let Some(t) = h.get(2).and_then(|x| x.as_i64()) {
+                let next = dense.len() as i64;
+                let d = *dense.entry(t).or_insert(next);
+                h[2] = json!(d);
+            }
+        }
         if lines.len() > MAX_HOOK_EVENTS {
             par.truncate(1000);
             par.push(json!([0, 0, -1, -1, lines.len() as i64]));
